@@ -23,19 +23,21 @@ type CallSpec struct {
 
 // Scenario is a concrete package plus how to run goderive on it.
 type Scenario struct {
-	ID         string                 `json:"id"`
-	Files      map[string]string      `json:"files"` // path relative to the module root
-	PkgDir     string                 `json:"pkgdir"`
-	Flags      []string               `json:"flags"`
-	Args       []string               `json:"args"`
-	Calls      []CallSpec             `json:"calls"`
-	Autoname   bool                   `json:"autoname"`
-	Dedup      bool                   `json:"dedup"`
-	Ident      bool                   `json:"ident"`      // keys pairwise non-assignable: spec may use exact key equality
-	AssertExit bool                   `json:"assertExit"` // C11's exit-status table applies
-	PreDerived string                 `json:"prederived,omitempty"`
-	Note       string                 `json:"note,omitempty"`
-	Model      map[string]interface{} `json:"model,omitempty"` // prediction of the implementation-shaped model
+	ID          string                 `json:"id"`
+	Files       map[string]string      `json:"files"` // path relative to the module root
+	PkgDir      string                 `json:"pkgdir"`
+	Flags       []string               `json:"flags"`
+	Args        []string               `json:"args"`
+	Calls       []CallSpec             `json:"calls"`
+	Autoname    bool                   `json:"autoname"`
+	Dedup       bool                   `json:"dedup"`
+	Ident       bool                   `json:"ident"`       // keys pairwise non-assignable: spec may use exact key equality
+	AssertExit  bool                   `json:"assertExit"`  // C11's exit-status table applies
+	MustSucceed bool                   `json:"mustSucceed"` // C01: every call is inside the supported grammar
+	WellTyped   bool                   `json:"wellTyped"`   // the user files type-check apart from the undefined derive calls
+	PreDerived  string                 `json:"prederived,omitempty"`
+	Note        string                 `json:"note,omitempty"`
+	Model       map[string]interface{} `json:"model,omitempty"` // prediction of the implementation-shaped model
 }
 
 func (s *Scenario) Write(root string) error {
